@@ -34,6 +34,14 @@ type sys struct {
 	fsName string // MemFS | OrefaFS
 	ops    []opT
 
+	// variant of the system ("" for the main ones): "basepath:<class>" - the
+	// wrapper is built with spelling (the base's cwd being spellCwd) -, or
+	// "out-links" - B holds the links of outLinks.
+	variant  string
+	spelling string
+	spellCwd string
+	outLinks bool
+
 	base hooked
 	ref  hooked
 	wr   *basepathfs.BasePathFS
@@ -52,10 +60,60 @@ type sys struct {
 	nAt     []int           // operations applicable at level i (1-based)
 }
 
+// newSys builds the system of a name: "<fs>", "<fs>@<class of
+// basePathSpellings>", "<fs>+out-links".
+func newSys(name string, ops []opT, nAt []int) *sys {
+	s := &sys{fsName: name, ops: ops, nAt: nAt, spelling: basePath}
+
+	if fsn, class, ok := strings.Cut(name, "@"); ok {
+		s.fsName, s.variant = fsn, "basepath:"+class
+
+		found := false
+
+		for _, sp := range basePathSpellings {
+			if sp.Class == class {
+				s.spelling, s.spellCwd, found = sp.Spelling, sp.Cwd, true
+			}
+		}
+
+		if !found {
+			panic("c10: unknown base path spelling " + class)
+		}
+	}
+
+	if fsn, v, ok := strings.Cut(name, "+"); ok {
+		if v != "out-links" {
+			panic("c10: unknown variant " + v)
+		}
+
+		s.fsName, s.variant, s.outLinks = fsn, v, true
+	}
+
+	return s
+}
+
 // NumOps is the number of operations that apply at the next level (a prefix of
-// the list, which is sorted by decreasing MaxLevel).
+// the list, which is sorted by decreasing MaxLevel). Variants are explored for
+// the first call of a history; the base-path spellings also for the next
+// calls from the states in which the base's cwd has moved (to a cleanly
+// spelled directory).
 func (s *sys) NumOps() int {
-	if l := s.depth + 1; l < len(s.nAt) {
+	l := s.depth + 1
+
+	if l == 1 && s.variant != "" {
+		return compactOps(s.ops)
+	}
+
+	if l > 1 && s.variant != "" {
+		// (a cwd with an unclean spelling - MemFile.Chdir keeps "/a/b/.." as given
+		// to Open - is one more state of the main systems, not of these)
+		c, r := s.base.CurDir(), s.ref.CurDir()
+		if s.outLinks || c == basePath || c != path.Clean(c) || r != path.Clean(r) {
+			return 0
+		}
+	}
+
+	if l < len(s.nAt) {
 		return s.nAt[l]
 	}
 
@@ -80,7 +138,7 @@ func newFS(name string, dirs []avfs.DirInfo) hooked {
 // populate creates B's content below root ("" for the reference) with the same
 // calls on both sides. Directory "a" exists already: it is the one system
 // directory given to the constructor, so that neither tree holds anything else.
-func populate(v hooked, root string) error {
+func populate(v hooked, root string, links [][2]string) error {
 	if err := v.SetUMask(0o022); err != nil {
 		return err
 	}
@@ -89,7 +147,33 @@ func populate(v hooked, root string) error {
 		return err
 	}
 
-	return v.WriteFile(root+"/a/f", []byte("AF"), 0o644)
+	if err := v.WriteFile(root+"/a/f", []byte("AF"), 0o644); err != nil {
+		return err
+	}
+
+	// symbolic links made through the file system itself, with the same target
+	// strings on both sides
+	for _, l := range links {
+		if err := v.Symlink(l[1], root+l[0]); err != nil {
+			return err
+		}
+	}
+
+	return nil
+}
+
+// links of the world of this system (none over an OrefaFS, which has no
+// symbolic links).
+func (s *sys) worldLinks() [][2]string {
+	if s.fsName != "MemFS" {
+		return nil
+	}
+
+	if s.outLinks {
+		return append(append([][2]string{}, baseLinks...), outLinks...)
+	}
+
+	return baseLinks
 }
 
 // Reset builds fresh instances: base with B=/top/b and the outside files,
@@ -101,11 +185,11 @@ func (s *sys) Reset() error {
 		s.base = newFS(s.fsName, []avfs.DirInfo{{Path: basePath + "/a", Perm: 0o755}})
 		s.ref = newFS(s.fsName, []avfs.DirInfo{{Path: "/a", Perm: 0o755}})
 
-		if err = populate(s.base, basePath); err != nil {
+		if err = populate(s.base, basePath, s.worldLinks()); err != nil {
 			return
 		}
 
-		if err = populate(s.ref, ""); err != nil {
+		if err = populate(s.ref, "", s.worldLinks()); err != nil {
 			return
 		}
 
@@ -148,7 +232,14 @@ func (s *sys) Reset() error {
 			}
 		}
 
-		s.wr, err = basepathfs.NewWithErr(s.base, basePath)
+		// the wrapper, built with the spelling of B of this system
+		if s.spellCwd != "" {
+			if err = s.base.Chdir(s.spellCwd); err != nil {
+				return
+			}
+		}
+
+		s.wr, err = basepathfs.NewWithErr(s.base, s.spelling)
 		if err != nil {
 			return
 		}
@@ -609,6 +700,11 @@ func (s *sys) Step(op int) bfs.StepResult {
 		return bfs.StepResult{Key: s.lastKey, Outcome: "not-applicable-at-this-level"}
 	}
 
+	if o.Links && s.fsName != "MemFS" {
+		// no symbolic links in this world: the names mean nothing
+		return bfs.StepResult{Key: s.lastKey, Outcome: "no-links-in-this-world"}
+	}
+
 	s.fromKey = s.lastKey
 
 	// (MemFile.Chdir stores the name as given to Open: clean before use)
@@ -632,6 +728,13 @@ func (s *sys) Step(op int) bfs.StepResult {
 
 	if o.Call == "Getwd" {
 		pc, rc = "none", "inside"
+	}
+
+	if s.outLinks && rc == "inside" && !o.Two && o.A != "" {
+		// the operand stays in B lexically but goes through a link that does not
+		if _, out := s.throughLink(o, bcwd); out {
+			rc = "outside-via-link"
+		}
 	}
 
 	baseOp := o.Call == "BaseChdir"
@@ -723,6 +826,10 @@ func (s *sys) Step(op int) bfs.StepResult {
 			sig["basecwd"] = bcc
 		}
 
+		if s.variant != "" {
+			sig["variant"] = s.variant
+		}
+
 		diffs = append(diffs, kind+": "+why)
 		viols = append(viols, bfs.Viol{Sig: sig})
 	}
@@ -748,6 +855,10 @@ func (s *sys) Step(op int) bfs.StepResult {
 
 		if bcc != "" {
 			sig["basecwd"] = bcc
+		}
+
+		if s.variant != "" {
+			sig["variant"] = s.variant
 		}
 
 		diffs = append(diffs, "note "+class+": "+why)
@@ -1121,13 +1232,52 @@ func (s *sys) answersFromOutside(o opT, bcwd string, i int, g sub) bool {
 		bp = bcwd + "/" + bp
 	}
 
+	viaLink := false
+
 	if underB(path.Clean(bp)) {
-		return false
+		real, out := s.throughLink(o, bcwd)
+		if !out {
+			return false
+		}
+
+		bp, viaLink = real, true
 	}
 
 	probe := run(s.base, opT{Call: o.Call, A: bp})
+	if i >= len(probe.Subs) || probe.Subs[i].Kind != g.Kind {
+		return false
+	}
 
-	return i < len(probe.Subs) && probe.Subs[i].Kind == g.Kind && probe.Subs[i].Val == g.Val
+	pv, gv := probe.Subs[i].Val, g.Val
+
+	if viaLink && pv != gv {
+		// (FileInfo.Name is the link's on one side, the target's on the other)
+		_, pv, _ = strings.Cut(pv, " ")
+		_, gv, _ = strings.Cut(gv, " ")
+	}
+
+	return pv == gv
+}
+
+// throughLink resolves the operand of o, joined to B (or to the base's cwd)
+// with ".." clamped at B as the wrapper does, through the symbolic links of
+// the base: real is where the base lands, out whether that is outside B.
+func (s *sys) throughLink(o opT, bcwd string) (real string, out bool) {
+	from := bcwd
+	if !underB(from) {
+		from = basePath
+	}
+
+	v, _, _ := vResolve("/"+strings.TrimPrefix(from, basePath), o.A)
+
+	_, _ = fsx.Guard(func() {
+		r, err := s.base.EvalSymlinks(path.Clean(basePath + v))
+		if err == nil {
+			real, out = r, !underB(r)
+		}
+	})
+
+	return real, out
 }
 
 // ---- operations made through a view returned by Sub ----
